@@ -159,12 +159,17 @@ static double eff_dlon(double lon0, double lon) {
 struct Val { double v; bool quick; };
 static std::vector<double> pick(const std::vector<Val>& a, bool T) { std::vector<double> r; for (auto& x : a) if (T || x.quick) r.push_back(x.v); return r; }
 
+struct Tol { ld pos, gfloor, krel; };
+// tolerance for convergence (degrees) and scale (relative): documented floor + the change caused by moving the point by the
+// position tolerance, |d log(dz/dw)| = |sin phi| |dw|, |dw| = ds/(nu cos phi)   (unbounded at the poles and at the branch point)
+static ld cond(const Ora& R, ld Pr, ld tolpos) { return R.absS * 2 * tolpos / Pr; }
+
 int main(int argc, char** argv) {
   Ctx ctx(argc, argv);
   const bool T = ctx.thorough();
 
   // latitudes: poles, pole neighbours, equator +-0, the tauf thresholds (3.35 deg: one vs two Newton steps; |taup| > 70
-  // <=> lat > 89.18), zetainv0 regime boundaries (psi = e pi/2 <=> 7.4 deg, psi = -e pi/4 <=> -3.7 deg for WGS84)
+  // <=> lat > 89.18), zetainv0 regime boundaries (psi = e pi/2 <=> 7.4 deg, psi = -e pi/4 <=> -3.7 deg for WGS84), -15 (extended-domain scope)
   const std::vector<Val> LATP = {{0, 1}, {1e-9, 1}, {1, 0}, {3, 1}, {4, 0}, {7, 1}, {8, 0}, {10, 1}, {14, 0}, {16, 0}, {30, 0}, {45, 1}, {60, 0}, {80, 1},
                                  {89, 1}, {89.5, 0}, {89.9, 1}, {89.999999, 0}, {89.999999999, 1}, {90, 1}};
   std::vector<double> lats;
@@ -176,18 +181,18 @@ int main(int argc, char** argv) {
 
   ctx.bound("params", T ? "8 parameter sets: WGS84/0.9996, WGS84/1, sphere a=1, Airy/0.9996012717, (a=1,f=1/150,k0=2), f=+0.01, f=-0.01, f=+0.1" : "3 parameter sets: WGS84/0.9996, WGS84/1, sphere a=1");
   ctx.bound("lat", fmti((long long)lats.size()) + " latitudes: +-{0, 1e-9, 3, 7, 10, 45, 80, 89, 89.9, 90-1e-9, 90" + std::string(T ? ", 1, 4, 8, 14, 16, 30, 60, 89.5, 90-1e-6" : "") + "}");
-  ctx.bound("dlon", fmti((long long)pick(DLONP, T).size() * 2 + 8) + " longitude offsets: +-{0, 1e-9, 3, 10, 35, 60, 75, 80, 85, 89, 90, 90+1e-9, 120, 150, 179, 180, (1-e)90 and its +-1e-9 neighbours, (1-2e)90+-0.5" + std::string(T ? ", 1, 20, 34.99, 35.01, 50, 70, 82, 83, 90-1e-9, 91, 100, 145, 180-1e-9" : "") + "}");
-  ctx.bound("lon0", "central meridians {0, 177, -183}; each also as lon0+360 and lon-360 where the shift is exact");
+  ctx.bound("dlon", fmti((long long)pick(DLONP, T).size() * 2 + 10) + " longitude offsets: +-{0, 1e-9, 3, 10, 35, 60, 75, 80, 85, 89, 90, 90+1e-9, 120, 150, 179, 180, (1-e)90 and its +-1e-9 neighbours, (1-2e)90+-0.5" + std::string(T ? ", 1, 20, 34.99, 35.01, 50, 70, 82, 83, 90-1e-9, 91, 100, 145, 180-1e-9" : "") + "}");
+  ctx.bound("lon0", "central meridians {0, 177, -183}; each also as lon0+360 and lon-+360 where the shift is exact");
   ctx.bound("impl", "series, exact, exact+extendp, TransverseMercator(exact=true), TransverseMercator(exact=true,extendp), and the two static UTM() objects on WGS84/0.9996");
-  ctx.bound("oracle", "tm_ode long double, Taylor orders 28 (tol 1e-20) and 20 (tol 1e-19), start latitudes 30/50 deg on the via-north path; used where both runs agree to 5 % of the position tolerance");
+  ctx.bound("oracle", "tm_ode long double, Taylor orders 28 (tol 1e-20) and 20 (tol 1e-19), start latitudes 30/50 deg on the via-north path; used where both runs agree to 5 % of the position tolerance; sphere: closed form");
 
   ctx.note("documented convergence accuracy (2e-15 arcsec) is far below the spacing of doubles at the returned values (ulp(10 deg) = 6e-12 arcsec); "
-           "the convergence predicate therefore uses a calibrated round-off floor plus the angle subtended by the position tolerance at the distance to the pole, as upstream develop/TMTest.cpp does");
+           "the convergence and scale predicates use a round-off floor (convergence: calibrated; scale: 2 x the documented 6e-12 % / 7e-12 %) plus the change of the oracle's "
+           "log(dz/dw) over the position tolerance, |sin phi| ds/(nu cos phi), which is what upstream develop/TMTest.cpp allows near the pole");
   ctx.note("position errors are measured as ground distance = plane distance / scale, as the documentation states (5 nm / 8 nm 'ground distance')");
   ctx.note("series accuracy is documented (5 nm) only within 35 deg of the central meridian and for terrestrial flattenings; for |f| >= 0.01 and between 35 deg and (1-2e)90 "
            "the series is compared with the oracle against a calibrated envelope (4 x worst observed), beyond (1-2e)90 ('garbage' per the documentation) it is not compared");
-  ctx.note("TransverseMercatorExact with extendp: accuracy predicates at 2 x 8 nm are applied for lat >= -15 deg (the range covered by upstream's own test driver); for lat < -15 deg in the extended domain "
-           "see known finding 'extendp-south-accuracy'");
+  ctx.note("far-side equator (lat = +-0, |dlon| > 90): y = +(2Q-..) and y = -(2Q-..) describe the same point; |y| is compared with the oracle and lat = +0 / -0 must give the same result");
 
   for (int pi = 0; pi < NPAR; ++pi) {
     const Par& P = PARS[pi];
@@ -195,6 +200,7 @@ int main(int argc, char** argv) {
     Geo G(P);
     std::vector<Impl> impls = make_impls(P);
     const ld ascale = G.a / WGS84_A;
+    const ld VT = 10e-9L * ascale;                               // oracle validity is judged against the strictest position tolerance
     double e_lib = std::sqrt(P.f * (2 - P.f));                 // the library's own double value of e (to hit its lon == 90(1-e) branch)
     std::vector<double> dl = pick(DLONP, T);
     if (P.f > 0) {
@@ -205,6 +211,7 @@ int main(int argc, char** argv) {
     }
     std::sort(dl.begin(), dl.end());
     std::vector<double> dlons; for (double v : dl) { dlons.push_back(v); dlons.push_back(-v); }
+    const ld e_ = G.e2 > 0 ? sqrtl(G.e2) : 0, safe = (1 - 2 * e_) * 90;     // documented "safe side" limit of the series
 
     // ============================================================== subcheck: forward lattice
     ctx.sub(std::string("lattice/") + P.name);
@@ -221,73 +228,66 @@ int main(int argc, char** argv) {
         const double dlon = eff_dlon(lon0, lon);
         const double ad = std::fabs(dlon);
         const double cmdist = std::min(ad, 180 - ad);            // distance to the central meridian or its antimeridian
-        // oracle (shared by the implementations); tolerance for validity is the strictest position tolerance
-        Ora O; Ora OX;                                           // OX: extended-domain oracle (via north) for lat <= 0, dlon in [lonb, 90]
-        const bool in_ext_south = P.exact && (lat < 0 || (lat == 0 && std::signbit(lat)) || lat == 0) && !pole && dlon >= (double)G.lonb && dlon <= 90 && lat > -90;
-        if (!pole) {
-          O = oracle_std(G, lat, dlon, 10e-9L * ascale);
-          if (in_ext_south && !(lat == 0 && !std::signbit(lat) && false)) OX = oracle_raw(G, lat, dlon, tm_ode::VIA_NORTH, 10e-9L * ascale);
-        }
+        Ora Ostd, Oext; bool have_std = false, have_ext = false;
         for (size_t ii = 0; ii < impls.size(); ++ii) {
           const Impl& I = impls[ii];
           mc::Ctx::Case cs(ctx);
           const std::string where = std::string(P.name) + " " + I.name + " lat=" + fx(lat) + " lon0=" + fmt(lon0) + " lon=" + fx(lon) + " dlon=" + fx(dlon);
-          const std::string key = where;
           auto FAIL = [&](const char* kind, const std::string& msg, mc::Fields extra = {}) {
             mc::Fields f = {{"kind", kind}, {"param", P.name}, {"impl", I.name}, {"lat", fmt(lat)}, {"dlon", fmt(dlon)}, {"lon0", fmt(lon0)}};
             for (auto& e : extra) f.push_back(e);
-            ctx.fail(key + " " + kind, where + ": " + msg, f);
+            ctx.fail(where + " " + kind, where + ": " + msg, f);
           };
+          // ---- documented domain of the extendp variant
+          bool south_ext = false;
+          if (I.extendp) {
+            bool north = !std::signbit(lat) && !std::signbit(dlon) && dlon <= 90;
+            bool south = lat <= 0 && lat > -90 && dlon >= (double)G.lonb && dlon <= 90;
+            if (!(north || south)) { ctx.count("extendp.outside-documented-domain"); ctx.sig(77); continue; }
+            south_ext = std::signbit(lat);
+          }
           double x = NAN, y = NAN, gam = NAN, k = NAN;
           bool threw = false; int sg = 0;
           try { sg = mc::crashed([&] { I.fwd(lon0, lat, lon, x, y, gam, k); }); } catch (const std::exception& e) { threw = true; FAIL("fwd-exception", e.what()); }
           if (sg) { FAIL("fwd-crash", "signal " + fmti(sg)); continue; }
           if (threw) continue;
 
-          // ---- domain classification for this implementation
-          bool ext_dom = true;      // inside the documented domain of the extendp variant
-          bool use_OX = false;
-          if (I.extendp) {
-            bool north = !std::signbit(lat) && dlon >= 0 && dlon <= 90 && !std::signbit(dlon);
-            bool south = in_ext_south && (lat < 0 || std::signbit(lat));
-            if (lat == 0 && !std::signbit(lat)) south = false;
-            ext_dom = north || south; use_OX = south && !north;
-            if (!ext_dom) { ctx.count("extendp.outside-documented-domain"); ctx.sig(77); continue; }
+          Ora R;
+          if (!pole) {
+            if (I.extendp) { if (!have_ext) { Oext = expect(G, lat, dlon, true, VT); have_ext = true; } R = Oext; }
+            else { if (!have_std) { Ostd = expect(G, lat, dlon, false, VT); have_std = true; } R = Ostd; }
           }
-          const Ora& R = use_OX ? OX : O;
-          ctx.sig((uint64_t)(R.valid ? 1 : 0) + 2 * (uint64_t)use_OX + 4 * (uint64_t)pole);
+          ctx.sig((uint64_t)(R.valid ? 1 : 0) + 2 * (uint64_t)R.via_north + 4 * (uint64_t)pole + 8 * (uint64_t)R.yfree);
 
           // ---- tolerance schedule
           Tol tol; bool acc = true; bool calibrated = false; const char* band = "";
+          tol.gfloor = 2e-13L;
           if (I.series) {
             tol.pos = 10e-9L * ascale; tol.krel = 1.2e-13L;
-            ld e_ = G.e2 > 0 ? sqrtl(G.e2) : 0; ld safe = (1 - 2 * e_) * 90;          // documented "safe side" limit
             if (cmdist > (double)safe + 1e-6) { acc = false; band = "beyond (1-2e)90"; }
             else if (!P.series_doc || cmdist > 35) {
-              calibrated = true;
-              // calibrated envelope: 4 x worst observed on the unchanged tree per band (ground distance, metres, for a = WGS84 a)
+              calibrated = true; band = "calibrated";
+              // calibrated envelope: >= 4 x worst observed on the unchanged tree per band (ground distance, metres, for a = WGS84 a)
               ld env;
               if (P.series_doc) env = cmdist <= 50 ? 2e-7L : cmdist <= 60 ? 5e-5L : cmdist <= 70 ? 2e-2L : 2.0L;
               else if (std::fabs(P.f) <= 0.0100001) env = cmdist <= 35 ? 2e-5L : cmdist <= 50 ? 2e-3L : cmdist <= 60 ? 0.3L : 300.0L;
               else env = cmdist <= 20 ? 30.0L : -1;
               if (env < 0) { acc = false; band = "f=0.1 beyond 20 deg"; }
-              tol.pos = env * ascale; tol.krel = std::max<ld>(1.2e-13L, 40 * env / WGS84_A);
-              band = "calibrated";
+              tol.pos = env * ascale; tol.krel = std::max<ld>(1.2e-13L, 40 * env / WGS84_A); tol.gfloor = std::max<ld>(tol.gfloor, tol.krel / DEGL);
             }
           } else { tol.pos = 16e-9L * ascale; tol.krel = 1.4e-13L; }
-          tol.gam_floor = 2e-13L;
-          const std::string cls = I.series ? (calibrated ? "series-envelope" : "series") : (use_OX ? "exact-extsouth" : "exact");
+          const std::string cls = I.series ? (calibrated ? "series-envelope" : "series") : (south_ext ? "exact-extsouth" : "exact");
 
           if (!(std::isfinite(x) && std::isfinite(y) && std::isfinite(gam) && std::isfinite(k))) {
-            if (acc && !(I.series && !R.valid)) FAIL("fwd-nonfinite", "x=" + fmt(x) + " y=" + fmt(y) + " gamma=" + fmt(gam) + " k=" + fmt(k));
+            if (!I.series || (acc && R.valid)) FAIL("fwd-nonfinite", "x=" + fmt(x) + " y=" + fmt(y) + " gamma=" + fmt(gam) + " k=" + fmt(k));
             else ctx.count("series.nonfinite-outside-documented-domain");
             continue;
           }
 
-          // ---- poles
+          // ---- poles: x = 0, y = +- k0 * quarter meridian, k = k0, gamma = +-dlon
           if (pole) {
             ld sgn = lat > 0 ? 1 : -1;
-            ld ey = sgn * G.Q * G.a * G.k0;                      // true meridian distance to the pole; far side: 2Q - Q = Q as well
+            ld ey = sgn * G.Q * G.a * G.k0;
             ld err = hypotl((ld)x, (ld)y - ey);
             ctx.worst(cls + ".pole.pos/tol", (double)(err / tol.pos), where);
             if (err > tol.pos) FAIL("pole-position", "x=" + fx(x) + " y=" + fx(y) + " expected (0," + mc::fmtl(ey) + ")");
@@ -295,8 +295,8 @@ int main(int argc, char** argv) {
             ctx.worst(cls + ".pole.k/tol", (double)(ek / tol.krel), where);
             if (ek > tol.krel) FAIL("pole-scale", "k=" + fx(k) + " expected k0=" + fmt(P.k0));
             ld eg = fabsl(angdiff((ld)gam, sgn * (ld)dlon));
-            ctx.worst(cls + ".pole.gamma/tol", (double)(eg / tol.gam_floor), where);
-            if (eg > tol.gam_floor) FAIL("pole-convergence", "gamma=" + fx(gam) + " expected " + mc::fmtl(sgn * (ld)dlon));
+            ctx.worst(cls + ".pole.gamma/tol", (double)(eg / tol.gfloor), where);
+            if (eg > tol.gfloor) FAIL("pole-convergence", "gamma=" + fx(gam) + " expected " + mc::fmtl(sgn * (ld)dlon));
           }
 
           // ---- central meridian: x = 0 exactly, gamma = 0 exactly, y = k0 * meridian distance, k = k0
@@ -304,129 +304,153 @@ int main(int argc, char** argv) {
             if (!(x == 0)) FAIL("cm-easting-nonzero", "x=" + fx(x) + " on the central meridian");
             if (!(gam == 0)) FAIL("cm-convergence-nonzero", "gamma=" + fx(gam) + " on the central meridian");
             ld ey = fabsl((ld)y - merid);
-            ld tp = I.series && !P.series_doc ? tol.pos : (I.series ? 10e-9L : 16e-9L) * ascale;
-            ctx.worst(cls + ".cm.y/tol", (double)(ey / tp), where);
-            if (ey > tp) FAIL("cm-northing", "y=" + fx(y) + " expected k0*M=" + mc::fmtl(merid));
+            ctx.worst(cls + ".cm.y/tol", (double)(ey / tol.pos), where);
+            if (ey > tol.pos) FAIL("cm-northing", "y=" + fx(y) + " expected k0*M=" + mc::fmtl(merid));
             ld ek = fabsl((ld)k / G.k0 - 1);
             ctx.worst(cls + ".cm.k/tol", (double)(ek / tol.krel), where);
             if (ek > tol.krel) FAIL("cm-scale", "k=" + fx(k) + " expected k0=" + fmt(P.k0));
           }
 
           // ---- forward against the oracle
-          bool south15 = use_OX && lat < -15;
+          const ld sig2 = R.valid ? hypotl(R.x, R.y) / (G.a * G.k0) : 0;              // |sigma|
           if (!pole && R.valid && acc) {
-            ld err = hypotl((ld)x - R.x, (ld)y - R.y) / (R.k / G.k0 > 0 ? R.k : 1);       // ground distance
-            ld eg = fabsl(angdiff((ld)gam, R.gamma));
-            ld tg = tol.gam_floor * (1 + R.k / G.k0) + (2 * tol.pos / (G.a * cphi)) / DEGL;   // floor + position tolerance seen from the pole distance
+            ld ex = (ld)x - R.x, ey = R.yfree ? fabsl((ld)y) - fabsl(R.y) : (ld)y - R.y;
+            ld kk = R.k / G.k0;
+            ld err = hypotl(ex, ey) / kk;                                               // ground distance
+            ld eg = fabsl(angdiff((ld)gam, R.gamma)); if (R.yfree) eg = std::min(eg, fabsl(angdiff((ld)gam, -R.gamma)));
             ld ek = fabsl((ld)k / R.k - 1);
-            if (south15) {
-              ctx.worst("exact-extsouth.lat<-15.pos_m", (double)err, where);
-              if (err > tol.pos) FAIL("extendp-south-accuracy", "ground error " + mc::fmtl(err) + " m (x=" + fx(x) + " y=" + fx(y) + " oracle " + mc::fmtl(R.x) + "," + mc::fmtl(R.y) + " k=" + mc::fmtl(R.k) + ")", {{"region", "extendp lat<-15"}});
-              if (eg > tg || ek > tol.krel) FAIL("extendp-south-accuracy", "gamma err " + mc::fmtl(eg) + " deg, scale rel err " + mc::fmtl(ek), {{"region", "extendp lat<-15"}});
+            ld cd = cond(R, Pr, tol.pos);
+            ld tg = tol.gfloor + cd / DEGL, tk = tol.krel + cd;
+            if (south_ext) {
+              // gross bound (never masked): 2 x 8 nm + the loss of Lee's formulation near the pole of sigma, a |sigma|^2 * 8e-15 (plane), |sigma| * 8e-15 (angle)
+              ld gross = tol.pos + 8e-15L * sig2 * sig2 * G.a / kk, grossa = 8e-15L * sig2;
+              if (16e-15L * sig2 >= 0.01L) { gross = grossa = INFINITY; ctx.count("extendp.south.total-precision-loss (|sigma| > 6e11): only the known-finding class applies"); }
+              ctx.worst("exact-extsouth.fwd.pos/gross", (double)(err / gross), where);
+              ctx.worst("exact-extsouth.fwd.pos_m", (double)err, where);
+              if (err > gross) FAIL("fwd-oracle", "extended domain: ground error " + mc::fmtl(err) + " m > gross bound " + mc::fmtl(gross));
+              else if (err > tol.pos) FAIL("extendp-south-accuracy", "ground error " + mc::fmtl(err) + " m > " + mc::fmtl(tol.pos) + " (x=" + fx(x) + " y=" + fx(y) + " oracle " + mc::fmtl(R.x) + "," + mc::fmtl(R.y) + " k=" + mc::fmtl(R.k) + ")", {{"region", "extendp lat<0"}, {"quantity", "forward"}});
+              if (eg * DEGL > tg * DEGL + grossa || ek > tk + grossa) FAIL("fwd-convergence", "extended domain: gamma err " + mc::fmtl(eg) + " deg, scale rel err " + mc::fmtl(ek) + " beyond gross bound");
+              else if (eg > tg || ek > tk) FAIL("extendp-south-accuracy", "gamma err " + mc::fmtl(eg) + " deg (tol " + mc::fmtl(tg) + "), scale rel err " + mc::fmtl(ek) + " (tol " + mc::fmtl(tk) + ")", {{"region", "extendp lat<0"}, {"quantity", "forward-gamma-k"}});
             } else {
               ctx.worst(cls + ".fwd.pos/tol", (double)(err / tol.pos), where);
-              if (calibrated) ctx.worst(std::string("series-envelope.") + (P.series_doc ? "doc-f" : "large-f") + ".pos_m(a=WGS84)", (double)(err / ascale), where);
+              if (calibrated) ctx.worst(std::string("series-envelope.") + P.name + (cmdist <= 35 ? ".<=35" : cmdist <= 50 ? ".<=50" : cmdist <= 60 ? ".<=60" : cmdist <= 70 ? ".<=70" : ".<=safe") + ".pos_m(a=WGS84)", (double)(err / ascale), where);
               if (err > tol.pos) FAIL(calibrated ? "fwd-oracle-envelope" : "fwd-oracle", "ground error " + mc::fmtl(err) + " m > " + mc::fmtl(tol.pos) + " (x=" + fx(x) + " y=" + fx(y) + " oracle " + mc::fmtl(R.x) + "," + mc::fmtl(R.y) + ")");
               ctx.worst(cls + ".fwd.gamma/tol", (double)(eg / tg), where);
-              if (!calibrated) ctx.worst(cls + ".fwd.gamma_deg", (double)(eg / (1 + R.k / G.k0)) * (cphi > 0.01L ? 1 : 0), where);
-              if (eg > tg) FAIL("fwd-convergence", "gamma=" + fx(gam) + " oracle -arg(dz/dw)=" + mc::fmtl(R.gamma));
-              ctx.worst(cls + ".fwd.k/tol", (double)(ek / tol.krel), where);
-              if (ek > tol.krel) FAIL("fwd-scale", "k=" + fx(k) + " oracle |dz/dw|/(nu cos phi)=" + mc::fmtl(R.k));
+              if (!calibrated) ctx.worst(cls + ".fwd.gamma-excess-over-cond_deg", (double)(eg - cd / DEGL), where);
+              if (eg > tg) FAIL("fwd-convergence", "gamma=" + fx(gam) + " oracle -arg(dz/dw)=" + mc::fmtl(R.gamma) + " tol " + mc::fmtl(tg));
+              ctx.worst(cls + ".fwd.k/tol", (double)(ek / tk), where);
+              if (ek > tk) FAIL("fwd-scale", "k=" + fx(k) + " oracle |dz/dw|/(nu cos phi)=" + mc::fmtl(R.k) + " tol " + mc::fmtl(tk));
             }
-          } else if (!pole && acc) ctx.count(R.valid ? "oracle.unused" : "oracle.not-valid (near the branch point / on the cut): only round-trip, parity, wrap predicates");
+          } else if (!pole && acc) ctx.count("oracle.not-valid (within ~1e-9 deg of the branch point / on it): only round-trip, parity, wrap predicates");
           else if (!pole) ctx.count(std::string("series.not-compared: ") + band);
 
           // ---- series <-> exact within 35 degrees
           if (I.series && !pole && P.exact && P.series_doc && cmdist <= 35 && ii == 0) {
             double x2, y2, g2, k2; impls[1].fwd(lon0, lat, lon, x2, y2, g2, k2);
-            ld kk = R.valid ? R.k : (ld)k2;
+            ld kk = (R.valid ? R.k : (ld)k2) / G.k0;
             ld err = hypotl((ld)x - x2, (ld)y - y2) / kk;
             ctx.worst("series-vs-exact.pos/tol", (double)(err / (26e-9L * ascale)), where);
             if (err > 26e-9L * ascale) FAIL("series-vs-exact", "ground distance " + mc::fmtl(err));
           }
 
-          // ---- round trip forward -> reverse (ground distance)
-          if (acc || !I.series) {
+          // ---- round trip forward -> reverse (ground distance), and Reverse's convergence/scale against Forward's
+          if (acc) {
             double la2 = NAN, lo2 = NAN, g2 = NAN, k2 = NAN; int sg2 = 0;
             try { sg2 = mc::crashed([&] { I.rev(lon0, x, y, la2, lo2, g2, k2); }); } catch (const std::exception& e) { FAIL("rev-exception", e.what()); continue; }
             if (sg2) { FAIL("rev-crash", "signal " + fmti(sg2)); continue; }
             ld dN = ((ld)la2 - (ld)lat) * DEGL * Mr;
             ld dE = pole ? 0 : angdiff(angdiff((ld)lo2, (ld)lon0), (ld)dlon) * DEGL * Pr;
-            if (lat == 0 && ad > 90) dN = (fabsl((ld)la2)) * DEGL * Mr;            // far-side equator: either sign of zero latitude
             ld err = hypotl(dN, dE);
-            ld trt = tol.pos;
-            // near the branch point the reverse map is ill-conditioned on the ground scale of the plane rounding error: allow 4 ulp of the coordinates mapped back
-            ld cond = 4 * 1.1e-16L * hypotl((ld)x, (ld)y) / (R.valid ? R.k / G.k0 * G.k0 : (ld)k);
-            if (cond > trt) trt = cond;
-            if (south15) {
-              ctx.worst("exact-extsouth.lat<-15.roundtrip_m", (double)err, where);
-              if (!(err <= trt)) FAIL("extendp-south-accuracy", "round trip ground error " + mc::fmtl(err) + " m", {{"region", "extendp lat<-15"}});
+            ld kk = (R.valid ? R.k : (ld)k) / G.k0;
+            ld trt = tol.pos + 4 * 1.1e-16L * hypotl((ld)x, (ld)y) / kk;             // + 4 ulp of the plane coordinates mapped back to the ground
+            ld cd = R.valid ? cond(R, Pr, tol.pos) : (ld)0;
+            if (south_ext) {
+              ld s2 = R.valid ? sig2 : hypotl((ld)x, (ld)y) / (G.a * G.k0);
+              ld gross = trt + 16e-15L * s2 * s2 * G.a / kk;
+              if (16e-15L * s2 >= 0.01L) gross = INFINITY;
+              ctx.worst("exact-extsouth.roundtrip_m", (double)err, where);
+              if (!(err <= gross)) FAIL("roundtrip", "extended domain: reverse(forward) = lat " + fx(la2) + " lon " + fx(lo2) + ", ground error " + mc::fmtl(err) + " m > gross bound " + mc::fmtl(gross));
+              else if (!(err <= trt)) FAIL("extendp-south-accuracy", "round trip ground error " + mc::fmtl(err) + " m > " + mc::fmtl(trt), {{"region", "extendp lat<0"}, {"quantity", "roundtrip"}});
             } else {
               ctx.worst(cls + ".roundtrip/tol", (double)(err / trt), where);
               if (!(err <= trt)) FAIL("roundtrip", "reverse(forward) = lat " + fx(la2) + " lon " + fx(lo2) + ", ground error " + mc::fmtl(err) + " m > " + mc::fmtl(trt));
-              // convergence and scale returned by Reverse equal those of Forward
-              if (!pole) {
+              if (!pole && R.valid) {
                 ld eg = fabsl(angdiff((ld)g2, (ld)gam)), ek = fabsl((ld)k2 / (ld)k - 1);
-                ld tg = 2 * (tol.gam_floor * (1 + (ld)k / G.k0) + (2 * tol.pos / (G.a * cphi)) / DEGL);
+                ld tg = 2 * (tol.gfloor + cd / DEGL), tk = 2 * (tol.krel + cd);
                 ctx.worst(cls + ".rev-vs-fwd.gamma/tol", (double)(eg / tg), where);
-                ctx.worst(cls + ".rev-vs-fwd.k/tol", (double)(ek / (2 * tol.krel)), where);
-                if (eg > tg) FAIL("rev-convergence", "Reverse gamma=" + fx(g2) + " Forward gamma=" + fx(gam));
-                if (ek > 2 * tol.krel) FAIL("rev-scale", "Reverse k=" + fx(k2) + " Forward k=" + fx(k));
+                ctx.worst(cls + ".rev-vs-fwd.k/tol", (double)(ek / tk), where);
+                if (eg > tg) FAIL("rev-convergence", "Reverse gamma=" + fx(g2) + " Forward gamma=" + fx(gam) + " tol " + mc::fmtl(tg));
+                if (ek > tk) FAIL("rev-scale", "Reverse k=" + fx(k2) + " Forward k=" + fx(k) + " tol " + mc::fmtl(tk));
               }
             }
-            if (!(lo2 >= -180 && lo2 <= 180)) FAIL("rev-lon-range", "lon=" + fx(lo2));
+            if (!(lo2 >= -180 && lo2 <= 180 && std::fabs(la2) <= 90)) FAIL("rev-range", "lat=" + fx(la2) + " lon=" + fx(lo2));
           }
 
           // ---- reverse of the oracle image
-          if (!pole && R.valid && acc && !south15) {
+          if (!pole && R.valid && acc && !R.yfree) {
             double X = (double)R.x, Y = (double)R.y, la2, lo2, g2, k2;
             I.rev(lon0, X, Y, la2, lo2, g2, k2);
             ld dN = ((ld)la2 - (ld)lat) * DEGL * Mr, dE = angdiff(angdiff((ld)lo2, (ld)lon0), (ld)dlon) * DEGL * Pr;
-            if (lat == 0 && ad > 90) dN = fabsl((ld)la2) * DEGL * Mr;
-            ld err = hypotl(dN, dE), trt = tol.pos;
-            ld cond = 4 * 1.1e-16L * hypotl(R.x, R.y) / (R.k / G.k0);
-            if (cond > trt) trt = cond;
-            ctx.worst(cls + ".rev-oracle.pos/tol", (double)(err / trt), where);
-            if (!(err <= trt)) FAIL("rev-oracle", "Reverse(oracle image) = lat " + fx(la2) + " lon " + fx(lo2) + ", ground error " + mc::fmtl(err) + " m");
+            ld kk = R.k / G.k0;
+            ld err = hypotl(dN, dE), trt = tol.pos + 4 * 1.1e-16L * hypotl(R.x, R.y) / kk;
             ld eg = fabsl(angdiff((ld)g2, R.gamma)), ek = fabsl((ld)k2 / R.k - 1);
-            ld tg = tol.gam_floor * (1 + R.k / G.k0) + (2 * tol.pos / (G.a * cphi)) / DEGL;
-            ctx.worst(cls + ".rev-oracle.gamma/tol", (double)(eg / tg), where);
-            ctx.worst(cls + ".rev-oracle.k/tol", (double)(ek / tol.krel), where);
-            if (eg > tg) FAIL("rev-oracle-convergence", "gamma=" + fx(g2) + " oracle " + mc::fmtl(R.gamma));
-            if (ek > tol.krel) FAIL("rev-oracle-scale", "k=" + fx(k2) + " oracle " + mc::fmtl(R.k));
+            ld cd = cond(R, Pr, tol.pos), tg = tol.gfloor + cd / DEGL, tk = tol.krel + cd;
+            if (south_ext) {
+              ld gross = trt + 16e-15L * sig2 * sig2 * G.a / kk, grossa = 16e-15L * sig2;
+              if (16e-15L * sig2 >= 0.01L) gross = grossa = INFINITY;
+              ctx.worst("exact-extsouth.rev-oracle.pos_m", (double)err, where);
+              if (!(err <= gross)) FAIL("rev-oracle", "extended domain: Reverse(oracle image) = lat " + fx(la2) + " lon " + fx(lo2) + ", ground error " + mc::fmtl(err) + " m > gross bound " + mc::fmtl(gross));
+              else if (!(err <= trt)) FAIL("extendp-south-accuracy", "Reverse(oracle image) ground error " + mc::fmtl(err) + " m > " + mc::fmtl(trt), {{"region", "extendp lat<0"}, {"quantity", "reverse"}});
+              if (eg * DEGL > tg * DEGL + grossa || ek > tk + grossa) FAIL("rev-oracle-convergence", "extended domain: gamma err " + mc::fmtl(eg) + " scale rel err " + mc::fmtl(ek) + " beyond gross bound");
+              else if (eg > tg || ek > tk) FAIL("extendp-south-accuracy", "Reverse gamma err " + mc::fmtl(eg) + " deg, scale rel err " + mc::fmtl(ek), {{"region", "extendp lat<0"}, {"quantity", "reverse-gamma-k"}});
+            } else {
+              ctx.worst(cls + ".rev-oracle.pos/tol", (double)(err / trt), where);
+              if (!(err <= trt)) FAIL("rev-oracle", "Reverse(oracle image) = lat " + fx(la2) + " lon " + fx(lo2) + ", ground error " + mc::fmtl(err) + " m > " + mc::fmtl(trt));
+              ctx.worst(cls + ".rev-oracle.gamma/tol", (double)(eg / tg), where);
+              ctx.worst(cls + ".rev-oracle.k/tol", (double)(ek / tk), where);
+              if (eg > tg) FAIL("rev-oracle-convergence", "gamma=" + fx(g2) + " oracle " + mc::fmtl(R.gamma) + " tol " + mc::fmtl(tg));
+              if (ek > tk) FAIL("rev-oracle-scale", "k=" + fx(k2) + " oracle " + mc::fmtl(R.k) + " tol " + mc::fmtl(tk));
+            }
           }
 
           // ---- parities (lon0 = 0 so that the mirrored arguments are exact): northing odd in lat, easting and convergence odd in dlon, scale even
-          if (lon0 == 0 && !I.extendp && !std::signbit(lat) && !std::signbit(dnom) && (acc || !I.series)) {
+          if (lon0 == 0 && !I.extendp && !std::signbit(lat) && !std::signbit(dnom) && acc) {
             for (int sl = -1; sl <= 1; sl += 2) for (int sd = -1; sd <= 1; sd += 2) {
               if (sl == 1 && sd == 1) continue;
               double x2, y2, g2, k2; I.fwd(0, sl * lat, sd * lon, x2, y2, g2, k2);
               ld ex = fabsl((ld)x2 - sd * (ld)x), ey = fabsl((ld)y2 - sl * (ld)y), eg = fabsl(angdiff((ld)g2, sl * sd * (ld)gam)), ek = fabsl((ld)k2 - (ld)k);
-              // the far-side equator is mapped to y = -(...) for lat = +0 and lat = -0 alike (documented in the code: latsign = -1 if lat == 0 on the backside)
-              if (lat == 0 && ad > 90) { ey = fabsl(fabsl((ld)y2) - fabsl((ld)y)); eg = std::min(eg, fabsl(angdiff((ld)g2, -sl * sd * (ld)gam))); }
-              ld t = 1e-9L * ascale * std::max<ld>(1, (ld)k), tgk = 1e-13L * (1 + (ld)k);
+              if (lat == 0 && ad > 90) {           // far-side equator: lat = +0 and -0 must give the SAME point (the code sets latsign = -1 for lat == 0 on the far side)
+                ey = fabsl((ld)y2 - (ld)y); eg = fabsl(angdiff((ld)g2, sd * (ld)gam));
+              }
               if (ad == 180 || ad == 0) eg = std::min(eg, fabsl(angdiff((ld)g2, -sl * sd * (ld)gam)));    // gamma = +-180 / 0 on the (anti)meridian
+              ld t = 1e-9L * ascale * std::max<ld>(1, (ld)k / G.k0), tgk = 1e-13L * (1 + (ld)k / G.k0);
               ctx.worst("parity.pos/tol", (double)(std::max(ex, ey) / t), where);
               if (ex > t || ey > t || eg > tgk || ek > tgk * (ld)k)
-                FAIL("parity", "(" + fmti(sl) + "lat," + fmti(sd) + "dlon): x " + fx(x2) + " y " + fx(y2) + " gamma " + fx(g2) + " k " + fx(k2) + " vs x " + fx(x) + " y " + fx(y) + " gamma " + fx(gam) + " k " + fx(k));
+                FAIL("parity", "(" + fmti(sl) + "*lat," + fmti(sd) + "*dlon): x " + fx(x2) + " y " + fx(y2) + " gamma " + fx(g2) + " k " + fx(k2) + " vs x " + fx(x) + " y " + fx(y) + " gamma " + fx(gam) + " k " + fx(k));
             }
           }
 
-          // ---- longitude wrap-around: lon0 + 360, lon - 360 / lon + 360 give bit-identical results
+          // ---- longitude wrap-around: lon0 + 360, lon -+ 360 give identical results (exact argument reduction); Reverse: lat, gamma, k identical,
+          //      lon within one unit in the last place of lon0 + 360 (the sum lon + lon0 is rounded once)
           {
+            auto eq = [](double p, double q) { return p == q || mc::same_bits(p, q) || (std::isnan(p) && std::isnan(q)); };
+            auto same = [&](double x2, double y2, double g2, double k2) {
+              return eq(x2, x) && eq(y2, y) && eq(k2, k) && (eq(g2, gam) || (std::fabs(g2) == 180 && std::fabs(gam) == 180));
+            };
             double l0s = lon0 + 360;
             for (int s = -1; s <= 1; s += 2) {
               double ls = lon + 360.0 * s;
               if (!(ls - 360.0 * s == lon)) continue;               // shift not exactly representable
               double x2, y2, g2, k2; I.fwd(lon0, lat, ls, x2, y2, g2, k2);
-              if (!(mc::same_bits(x2, x) && mc::same_bits(y2, y) && mc::same_bits(g2, gam) && mc::same_bits(k2, k)) && !(x2 == x && y2 == y && g2 == gam && k2 == k))
+              if (!same(x2, y2, g2, k2))
                 FAIL("wrap-lon", "Forward(lon" + std::string(s > 0 ? "+" : "-") + "360) = " + fx(x2) + "," + fx(y2) + "," + fx(g2) + "," + fx(k2) + " vs " + fx(x) + "," + fx(y) + "," + fx(gam) + "," + fx(k));
             }
             double x2, y2, g2, k2; I.fwd(l0s, lat, lon, x2, y2, g2, k2);
-            if (!(x2 == x && y2 == y && g2 == gam && k2 == k))
+            if (!same(x2, y2, g2, k2))
               FAIL("wrap-lon0", "Forward(lon0+360) = " + fx(x2) + "," + fx(y2) + "," + fx(g2) + "," + fx(k2) + " vs " + fx(x) + "," + fx(y) + "," + fx(gam) + "," + fx(k));
             double la2, lo2, la3, lo3, g3, k3; I.rev(lon0, x, y, la2, lo2, g2, k2); I.rev(l0s, x, y, la3, lo3, g3, k3);
-            if (!(la2 == la3 && lo2 == lo3 && g2 == g3 && k2 == k3)) FAIL("wrap-lon0-reverse", "Reverse(lon0+360) = " + fx(la3) + "," + fx(lo3) + " vs " + fx(la2) + "," + fx(lo2));
+            ld dl3 = fabsl(angdiff((ld)lo3, (ld)lo2));
+            if (!(eq(la2, la3) && eq(g2, g3) && eq(k2, k3) && (dl3 <= 1.2e-13L || eq(lo2, lo3)))) FAIL("wrap-lon0-reverse", "Reverse(lon0+360) = " + fx(la3) + "," + fx(lo3) + "," + fx(g3) + "," + fx(k3) + " vs " + fx(la2) + "," + fx(lo2) + "," + fx(g2) + "," + fx(k2));
           }
           if (ctx.want_sample()) ctx.sample(where + " -> x=" + fmt(x) + " y=" + fmt(y) + " gamma=" + fmt(gam) + " k=" + fmt(k) + (R.valid ? " | oracle x=" + mc::fmtl(R.x) + " y=" + mc::fmtl(R.y) : " | oracle n/a"));
         }
@@ -436,74 +460,84 @@ int main(int argc, char** argv) {
     // ============================================================== subcheck: reverse on a grid of (x, y) incl. the far side
     ctx.sub(std::string("reverse-grid/") + P.name);
     {
-      const ld E2Q = 2 * G.Q;     // image height: |xi| <= 2Q
       std::vector<ld> xis = {0, 1e-10L, 0.3L, 1, G.Q - 1e-9L, G.Q, G.Q + 1e-9L, 2, 2 * G.Q - 0.3L, 2 * G.Q - 1e-9L};
-      if (T) { xis.push_back(0.01L); xis.push_back(0.7L); xis.push_back(1.3L); xis.push_back(2.5L); xis.push_back(G.Q * 0.25L); xis.push_back(-G.Q * 0.25L); }
+      if (T) { xis.push_back(0.01L); xis.push_back(0.7L); xis.push_back(1.3L); xis.push_back(2.5L); xis.push_back(G.Q * 0.25L); }
       std::vector<ld> etas = {0, 1e-10L, 0.1L, 0.3L, 0.6L, 1, 1.5L, 2, 2.5L, 3.5L, 5};
       if (P.f > 0) { etas.push_back(G.etab); etas.push_back(G.etab * (1 - 1e-9L)); etas.push_back(G.etab * (1 + 1e-9L)); etas.push_back(0.75L * G.etab + 0.01L); etas.push_back(1.25L * G.etab + 0.01L); }
       if (T) { etas.push_back(0.01L); etas.push_back(0.45L); etas.push_back(0.8L); etas.push_back(8); }
       ctx.bound("reverse-grid", fmti((long long)xis.size() * 2) + " northings y/(a k0) in +-{0, 1e-10, 0.3, 1, Q-1e-9, Q, Q+1e-9, 2, 2Q-0.3, 2Q-1e-9, ..} (Q = quarter meridian/a) x " + fmti((long long)etas.size() * 2) +
-                " eastings x/(a k0) in +-{0, 1e-10, 0.1 .. 5, the branch easting K'-E' and its neighbours, 0.75/1.25 (K'-E') regime boundaries} x lon0 {0, 177}");
+                " eastings x/(a k0) in +-{0, 1e-10, 0.1 .. 5, the branch easting K'-E' and its 1e-9 neighbours, the 0.75/1.25 (K'-E') regime boundaries} x lon0 {0, 177}");
       for (size_t xi_i = 0; xi_i < xis.size(); ++xi_i) for (int sx = 1; sx >= -1; sx -= 2) {
         if (!ctx.take()) continue;
         for (ld eta0 : etas) for (int se = 1; se >= -1; se -= 2) for (double lon0 : {0.0, 177.0}) for (size_t ii = 0; ii < impls.size(); ++ii) {
           const Impl& I = impls[ii];
           const double X = (double)(se * eta0 * G.a * G.k0), Y = (double)(sx * xis[xi_i] * G.a * G.k0);
-          if (fabsl(xis[xi_i]) > E2Q) continue;
           mc::Ctx::Case cs(ctx);
           const std::string where = std::string(P.name) + " " + I.name + " lon0=" + fmt(lon0) + " x=" + fx(X) + " y=" + fx(Y);
-          auto FAIL = [&](const char* kind, const std::string& msg) {
-            ctx.fail(where + " " + kind, where + ": " + msg, {{"kind", kind}, {"param", P.name}, {"impl", I.name}, {"x", fmt(X)}, {"y", fmt(Y)}});
+          auto FAIL = [&](const char* kind, const std::string& msg, mc::Fields extra = {}) {
+            mc::Fields f = {{"kind", kind}, {"param", P.name}, {"impl", I.name}, {"x", fmt(X)}, {"y", fmt(Y)}};
+            for (auto& e : extra) f.push_back(e);
+            ctx.fail(where + " " + kind, where + ": " + msg, f);
           };
           if (I.series && eta0 > 0.65L) { ctx.count("reverse-grid.series-beyond-35deg-not-compared"); continue; }
           if (I.series && !P.series_doc) { ctx.count("reverse-grid.series-large-f-not-compared"); continue; }
-          if (I.extendp && !(X >= 0 && ((Y >= 0 && xis[xi_i] <= G.Q) || (Y <= 0 && eta0 >= G.etab)))) { ctx.count("extendp.outside-documented-domain"); continue; }
+          // documented Reverse domain of the extendp variant: x >= 0 and (0 <= y <= Q a k0  or  (y <= 0 and x >= (K'-E') a k0))
+          const bool ext_south = I.extendp && (Y < 0 || (Y == 0 && std::signbit(Y)) || (Y == 0 && eta0 >= G.etab));
+          if (I.extendp && !(X >= 0 && !std::signbit(X) && ((Y >= 0 && !std::signbit(Y) && xis[xi_i] <= G.Q) || (ext_south && eta0 >= G.etab)))) { ctx.count("extendp.outside-documented-domain"); continue; }
           double la = NAN, lo = NAN, g = NAN, k = NAN; int sg = 0;
           try { sg = mc::crashed([&] { I.rev(lon0, X, Y, la, lo, g, k); }); } catch (const std::exception& e) { FAIL("rev-exception", e.what()); continue; }
           if (sg) { FAIL("rev-crash", "signal " + fmti(sg)); continue; }
           if (!(std::isfinite(la) && std::isfinite(lo) && std::isfinite(g) && std::isfinite(k))) { FAIL("rev-nonfinite", "lat=" + fmt(la) + " lon=" + fmt(lo) + " gamma=" + fmt(g) + " k=" + fmt(k)); continue; }
           if (!(std::fabs(la) <= 90 && lo >= -180 && lo <= 180)) FAIL("rev-range", "lat=" + fx(la) + " lon=" + fx(lo));
           const double dlon = eff_dlon(lon0, lo);
-          ld tolp = (I.series ? 10e-9L : 16e-9L) * (G.a / WGS84_A);
-          bool south = I.extendp && Y <= 0 && !(Y == 0 && xis[xi_i] == 0 && eta0 < G.etab);
+          const ld tolp = (I.series ? 10e-9L : 16e-9L) * ascale;
           if (std::fabs(la) == 90) { ctx.count("reverse-grid.pole"); continue; }
-          Ora R = south && (la < 0 || std::signbit(la)) ? oracle_raw(G, la, dlon, tm_ode::VIA_NORTH, tolp) : oracle_std(G, la, dlon, tolp);
-          if (south && la < -15) {
-            if (R.valid) { ld err = hypotl((ld)X - R.x, (ld)Y - R.y) / R.k * G.k0 / G.k0; ctx.worst("exact-extsouth.lat<-15.revgrid_m", (double)err, where);
-              if (err > tolp) ctx.fail(where + " extendp-south-accuracy", where + ": oracle image of Reverse result differs by " + mc::fmtl(err) + " m (ground)", {{"kind", "extendp-south-accuracy"}, {"region", "extendp lat<-15"}, {"param", P.name}, {"impl", I.name}}); }
-            continue;
-          }
+          Ora R = expect(G, la, dlon, I.extendp, VT);
+          const bool west = eta0 < G.etab * (1 - 1e-6L);           // west of the branch easting every point is in the image of Forward
           bool matched = false;
           if (R.valid) {
-            // far-side equator (y = +-2Q a k0 row is not in the grid; lat = 0 only for y = 0)
-            ld err = hypotl((ld)X - R.x, (ld)Y - R.y) / (R.k / 1);
-            ld cond = 4 * 1.1e-16L * hypotl((ld)X, (ld)Y) / (R.k / G.k0);
-            ld t = std::max(tolp, cond);
-            matched = err <= t;
-            if (matched || (fabsl((ld)eta0) < G.etab * (1 - 1e-6L))) {
-              ctx.worst(std::string(I.series ? "series" : "exact") + ".revgrid.pos/tol", (double)(err / t), where);
-              if (!matched) FAIL("revgrid-oracle", "Reverse -> lat " + fx(la) + " lon " + fx(lo) + " whose oracle image " + mc::fmtl(R.x) + "," + mc::fmtl(R.y) + " is " + mc::fmtl(err) + " m (ground) away");
-              ld eg = fabsl(angdiff((ld)g, R.gamma)), ek = fabsl((ld)k / R.k - 1);
-              ld sph, cph; tm_ode::sincosd<ld>(la, sph, cph);
-              ld tg = 2e-13L * (1 + R.k / G.k0) + (2 * tolp / (G.a * std::max<ld>(cph, 1e-30L))) / DEGL;
-              if (matched) {
-                ctx.worst(std::string(I.series ? "series" : "exact") + ".revgrid.gamma/tol", (double)(eg / tg), where);
-                ctx.worst(std::string(I.series ? "series" : "exact") + ".revgrid.k/tol", (double)(ek / 1.4e-13L), where);
-                if (eg > tg) FAIL("revgrid-convergence", "gamma=" + fx(g) + " oracle " + mc::fmtl(R.gamma));
-                if (ek > 1.4e-13L) FAIL("revgrid-scale", "k=" + fx(k) + " oracle " + mc::fmtl(R.k));
-              }
-            } else ctx.count("reverse-grid.continuation-sheet (x beyond the branch easting, not in the image of Forward)");
+            ld sph, cph; tm_ode::sincosd<ld>(la, sph, cph); if (std::fabs(la) > 45) { ld s2, c2; tm_ode::sincosd<ld>(la > 0 ? 90 - la : -90 - la, s2, c2); cph = fabsl(s2); }
+            ld Pr = G.Prad(sph, cph), kk = R.k / G.k0;
+            ld ey = R.yfree ? fabsl((ld)Y) - fabsl(R.y) : (ld)Y - R.y;
+            ld err = hypotl((ld)X - R.x, ey) / kk;
+            ld t = tolp + 4 * 1.1e-16L * hypotl((ld)X, (ld)Y) / kk;
+            ld sig2 = hypotl((ld)X, (ld)Y) / (G.a * G.k0);
+            ld eg = fabsl(angdiff((ld)g, R.gamma)); if (R.yfree) eg = std::min(eg, fabsl(angdiff((ld)g, -R.gamma)));
+            ld ek = fabsl((ld)k / R.k - 1), cd = cond(R, Pr, tolp), tg = 2e-13L + cd / DEGL, tk = 1.4e-13L + cd;
+            if (ext_south && std::signbit(la)) {
+              ld gross = t + 16e-15L * sig2 * sig2 * G.a / kk, grossa = 16e-15L * sig2;
+              if (16e-15L * sig2 >= 0.01L) gross = grossa = INFINITY;
+              ctx.worst("exact-extsouth.revgrid.pos_m", (double)err, where);
+              if (!(err <= gross)) FAIL("revgrid-oracle", "extended domain: Reverse -> lat " + fx(la) + " lon " + fx(lo) + " whose oracle image is " + mc::fmtl(err) + " m (ground) away > gross bound " + mc::fmtl(gross));
+              else if (!(err <= t)) FAIL("extendp-south-accuracy", "Reverse -> lat " + fx(la) + " lon " + fx(lo) + " whose oracle image is " + mc::fmtl(err) + " m (ground) away", {{"region", "extendp lat<0"}, {"quantity", "reverse-grid"}});
+              if (eg * DEGL > tg * DEGL + grossa || ek > tk + grossa) FAIL("revgrid-convergence", "extended domain: gamma err " + mc::fmtl(eg) + " scale rel err " + mc::fmtl(ek) + " beyond gross bound");
+              else if (eg > tg || ek > tk) FAIL("extendp-south-accuracy", "Reverse gamma err " + mc::fmtl(eg) + " deg, scale rel err " + mc::fmtl(ek), {{"region", "extendp lat<0"}, {"quantity", "reverse-grid-gamma-k"}});
+              matched = true;
+            } else {
+              matched = err <= t;
+              if (matched || west || I.extendp) {
+                ctx.worst(std::string(I.series ? "series" : "exact") + ".revgrid.pos/tol", (double)(err / t), where);
+                if (!matched) FAIL("revgrid-oracle", "Reverse -> lat " + fx(la) + " lon " + fx(lo) + " whose oracle image " + mc::fmtl(R.x) + "," + mc::fmtl(R.y) + " is " + mc::fmtl(err) + " m (ground) away");
+                else {
+                  ctx.worst(std::string(I.series ? "series" : "exact") + ".revgrid.gamma/tol", (double)(eg / tg), where);
+                  ctx.worst(std::string(I.series ? "series" : "exact") + ".revgrid.k/tol", (double)(ek / tk), where);
+                  if (eg > tg) FAIL("revgrid-convergence", "gamma=" + fx(g) + " oracle " + mc::fmtl(R.gamma) + " tol " + mc::fmtl(tg));
+                  if (ek > tk) FAIL("revgrid-scale", "k=" + fx(k) + " oracle " + mc::fmtl(R.k) + " tol " + mc::fmtl(tk));
+                }
+              } else ctx.count("reverse-grid.continuation-sheet (x beyond the branch easting and not in the image of Forward: Reverse continues analytically, documented)");
+            }
           } else {
-            // no oracle: forward(reverse) must reproduce the point when it lies west of the branch easting
+            // no oracle (within 1e-9 deg of the branch point): forward(reverse) must reproduce the point when it lies west of the branch easting
             double x2, y2, g2, k2; I.fwd(lon0, la, lo, x2, y2, g2, k2);
-            ld err = hypotl((ld)X - x2, (ld)Y - y2) / (ld)k * G.k0;
-            ld t = std::max(tolp, 4 * 1.1e-16L * hypotl((ld)X, (ld)Y) / ((ld)k / G.k0));
-            if (fabsl((ld)eta0) < G.etab * (1 - 1e-6L)) {
-              ctx.worst("exact.revgrid-selfinverse.pos/tol", (double)(err / t), where);
+            ld kk = (ld)k / G.k0;
+            ld err = hypotl((ld)X - x2, (ld)Y - y2) / kk;
+            ld t = tolp + 4 * 1.1e-16L * hypotl((ld)X, (ld)Y) / kk;
+            if (west) {
+              ctx.worst("revgrid-selfinverse.pos/tol", (double)(err / t), where);
               if (!(err <= t)) FAIL("revgrid-roundtrip", "Forward(Reverse) = " + fx(x2) + "," + fx(y2) + " ground error " + mc::fmtl(err));
-            } else ctx.count("reverse-grid.no-oracle-beyond-branch-easting");
+            } else ctx.count("reverse-grid.no-oracle-at-or-beyond-branch-easting");
           }
-          ctx.sig((uint64_t)matched + 2 * (uint64_t)R.valid);
+          ctx.sig((uint64_t)matched + 2 * (uint64_t)R.valid + 4 * (uint64_t)R.via_north);
           if (ctx.want_sample()) ctx.sample(where + " -> lat=" + fmt(la) + " lon=" + fmt(lo) + " gamma=" + fmt(g) + " k=" + fmt(k));
         }
       }
